@@ -236,7 +236,7 @@ package sm2
 //@   (uses "ec" "big" "big:axioms")
 //@   (requires curve (not (isnil c)))
 //@   (requires consts (consts))
-//@   (fresh k)
+//@   (fresh-or-nil k)
 //@   (ghost-havoc io.pos)
 //@   (ensures range (=> (isnil err) (and (not (isnil k)) (<= 1 (bigval k)) (<= (bigval k) (- (ec.n (tag c)) 1))))))
 //@ (func "(*PublicKey).Sm3Digest"
@@ -250,13 +250,21 @@ package sm2
 // equations are covered by the bounded standard-vector stand-in (/verif/bounded/sm2/vectors_test.go).
 //@ (defmacro ordn (k) (ec.n (tag (field k PublicKey Curve))))
 //@ (func Sm2Sign split-returns
-//@   (uses "ec" "big" "big:axioms")
+//@   (uses "ec" "big")
 //@   (requires init (and (sm2init) (consts)))
 //@   (requires key (wfpriv priv))
 //@   (requires valid (and (<= 1 (bigval (field priv D))) (<= (bigval (field priv D)) (- (ordn priv) 2))))
 //@   (ghost-havoc io.pos)
 //@   (ensures results (=> (isnil err) (and (not (isnil r)) (not (isnil s))
 //@        (<= 1 (bigval r)) (< (bigval r) (ordn priv)) (<= 1 (bigval s)) (< (bigval s) (ordn priv)))))
+//@   (ensures-internal a3 (=> (isnil err) (and (<= 1 (bigval k)) (< (bigval k) (ordn priv)))))
+//@   (ensures-internal a5 (=> (isnil err)
+//@        (= (bigval r) (mod (+ (ec.bmulx (tag (field priv PublicKey Curve)) (bigval k)) (bigval e)) (ordn priv)))))
+//@   (ensures-internal a5retry (=> (isnil err) (not (= (+ (bigval r) (bigval k)) (ordn priv)))))
+//@   (ensures-internal a6d1 (=> (isnil err) (= (bigval d1) (+ (bigval (field priv D)) 1))))
+//@   (ensures-internal a6inv (=> (isnil err) (= (mod (* (bigval d1Inv) (bigval d1)) (ordn priv)) 1)))
+//@   (ensures-internal a6 (=> (isnil err)
+//@        (= (bigval s) (mod (* (- (bigval k) (* (bigval (field priv D)) (bigval r))) (bigval d1Inv)) (ordn priv)))))
 //@   (loop 1 (invariant true true)))
 
 // GM/T 0003.2 section 7.1: B1/B2 r', s' in [1,n-1]; B5 t = (r' + s') mod n, reject t = 0; B6 (x1',y1') = [s']G + [t]PA;
